@@ -1064,9 +1064,11 @@ pub fn scale(out_dir: &str, thorough: bool, seed: u64) -> i32 {
     }
     // ---- growth out of a roomy buffer: a sole owner with kilobytes of reserved (or left-over) room and a short text asks
     // for more than the room; then uses what it was promised
-    for (cap, textlen, cut) in [(4096usize, 10usize, false), (8192, 28, false), (8192, 1024, false), (65536, 100, false), (1 << 20, 5000, false), (6000, 40, true), (70000, 0, true)] {
+    for (cap, textlen, cut) in [(4096usize, 10usize, false), (8192, 28, false), (8192, 1024, false), (65536, 100, false), (1 << 20, 5000, false), (6000, 40, true), (70000, 0, true),
+        // capacities that are not a multiple of the block alignment: a request that ends inside the padding of the block still is a request
+        (1025, 3, false), (1027, 0, false), (2046, 9, false), (4099, 10, false), (65537, 100, false), (1029, 5, true)] {
         for how in ["reserve", "push_str", "insert"] {
-            for over in [1usize, 1000, cap] {
+            for over in (if cap % 8 == 0 { vec![1usize, 1000, cap] } else { vec![1usize, 2, 3, 4, 5, 6, 7, 8, 9, 1000] }) {
                 let text = "r".repeat(textlen);
                 let mut s = if cut {
                     let mut s = LeanString::from("r".repeat(cap).as_str());
